@@ -126,3 +126,161 @@ Proof.
   destruct (e_fault e) as [|k|k]; [now right; right; right| |];
   destruct (Nat.eqb (s_n s) k); auto.
 Qed.
+
+(* ------------------------------------------------------------------ primitives as world transformers *)
+Definition set_fs (w : world) (f : fsT) : world := MkW f (w_ks w).
+Definition set_ks (w : world) (k : kstate) : world := MkW (w_fs w) k.
+Definition with_w (s : mst) (w : world) : mst := MkSt w (s_n s) (s_log s).
+Definition on_fres (w : world) (r : fres) : option world :=
+  match r with FOk f' => Some (set_fs w f') | FErr => None end.
+Definition op_result (o : op) (w : world) : option world :=
+  match o with
+  | OMkdir p => on_fres w (mkdir_all (w_fs w) p)
+  | OWriteText _ => Some w
+  | OOpen p => on_fres w (open_trunc (w_fs w) p)
+  | OAppend _ => Some w
+  | ORename a b0 => on_fres w (rename (w_fs w) a b0)
+  | ORemove p => on_fres w (remove_all (w_fs w) p)
+  | OSymlink l t => on_fres w (symlink (w_fs w) l t)
+  | OMount s t ty fl d =>
+      match kmount (w_fs w) (w_ks w) s t ty fl d with KOk k' => Some (set_ks w k') | KErr => None end
+  | OUmount t fl => match kumount (w_ks w) t fl with KOk k' => Some (set_ks w k') | KErr => None end
+  end.
+Definition wact (r : world -> option world) : M unit := fun s =>
+  match r (s_w s) with Some w' => (Ret tt, with_w s w') | None => (Fail, s) end.
+
+Lemma apply_op_eq o s : apply_op o s = wact (op_result o) s.
+Proof.
+  destruct s as [[f k] n lg]. unfold apply_op, wact, bind, get_fs, get_ks, op_result, on_fres, put_fs, put_ks, fail, ret, with_w, set_fs, set_ks.
+  cbn [s_w w_fs w_ks s_n s_log].
+  destruct o; try reflexivity.
+  - destruct (mkdir_all f p); reflexivity.
+  - destruct (open_trunc f p); reflexivity.
+  - destruct (rename f a b0); reflexivity.
+  - destruct (remove_all f p); reflexivity.
+  - destruct (symlink f link target); reflexivity.
+  - destruct (kmount f k src tgt fstype flags data); reflexivity.
+  - destruct (kumount k tgt flags); reflexivity.
+Qed.
+
+Definition write_result (p c : bytes) (w : world) : option world := on_fres w (write_text (w_fs w) p c).
+Definition append_result (p c : bytes) (w : world) : option world := Some (set_fs w (append_file (w_fs w) p c)).
+Definition drop_result (tmp : bytes) (w : world) : world :=
+  set_fs w (filter (fun x => negb (beq (fst x) tmp)) (w_fs w)).
+
+Lemma write_act_eq p c s :
+  (f <- get_fs ;; match write_text f p c with FOk f' => put_fs f' | FErr => fail end) s = wact (write_result p c) s.
+Proof.
+  destruct s as [[f k] n lg]. unfold wact, write_result, on_fres, bind, get_fs, put_fs, fail, with_w, set_fs. cbn [s_w w_fs w_ks s_n s_log].
+  destruct (write_text f p c); reflexivity.
+Qed.
+Lemma append_act_eq p c s :
+  (f <- get_fs ;; put_fs (append_file f p c)) s = wact (append_result p c) s.
+Proof. destruct s as [[f k] n lg]. reflexivity. Qed.
+Lemma drop_tmp_eq tmp s : drop_tmp tmp s = (Ret tt, with_w s (drop_result tmp (s_w s))).
+Proof. destruct s as [[f k] n lg]. reflexivity. Qed.
+
+Lemma hoare_wact (Iv : wpred) (bad : bool) (P : wpred) (act : M unit) r :
+  (forall s, act s = wact r s) ->
+  (forall w w', Iv w -> P w -> r w = Some w' -> Iv w') ->
+  hoare Iv bad P act (fun _ => ptrue).
+Proof.
+  intros E H s HI HP. rewrite E. unfold wact. destruct (r (s_w s)) as [w'|] eqn:Er; cbn.
+  - split; [eapply H; eauto|exact I].
+  - exact HI.
+Qed.
+
+Lemma hoare_mutate_w (Iv : wpred) (bad : bool) (P : wpred) e o (act : M unit) r :
+  (forall s, act s = wact r s) ->
+  (forall w w', Iv w -> P w -> r w = Some w' -> Iv w') ->
+  hoare Iv bad P (mutate e o act) (fun _ => ptrue).
+Proof. intros E H. apply hoare_mutate. eapply hoare_wact; eauto. Qed.
+
+Lemma hoare_do_op (Iv : wpred) (bad : bool) (P : wpred) e o :
+  (forall w w', Iv w -> P w -> op_result o w = Some w' -> Iv w') ->
+  hoare Iv bad P (do_op e o) (fun _ => ptrue).
+Proof. intros H. unfold do_op. eapply hoare_mutate_w; [apply apply_op_eq|exact H]. Qed.
+
+Lemma hoare_write_text (Iv : wpred) (bad : bool) (P : wpred) e p c :
+  (forall w w', Iv w -> P w -> write_result p c w = Some w' -> Iv w') ->
+  hoare Iv bad P (fs_write_text e p c) (fun _ => ptrue).
+Proof. intros H. unfold fs_write_text. eapply hoare_mutate_w; [apply write_act_eq|exact H]. Qed.
+
+Lemma hoare_cursor_writes (Iv : wpred) (bad : bool) e tmp chunks :
+  (forall c w, Iv w -> Iv (set_fs w (append_file (w_fs w) tmp c))) ->
+  hoare Iv bad ptrue (cursor_writes e tmp chunks) (fun _ => ptrue).
+Proof.
+  intros H. induction chunks as [|c r IH]; cbn [cursor_writes].
+  - apply hoare_ret. intros; exact I.
+  - eapply hoare_bind.
+    + eapply hoare_mutate_w; [apply append_act_eq|]. intros w w' HI _ E. unfold append_result in E. injection E as <-. now apply H.
+    + intros u. exact IH.
+Qed.
+
+(* the temporary-file protocol: the invariant has to survive opening, appending to and
+   dropping the temporary file, and the final rename *)
+Lemma hoare_write_atomically (Iv : wpred) (bad : bool) e p chunks :
+  (forall w w', Iv w -> op_result (OOpen (p ++ tmp_suffix)) w = Some w' -> Iv w') ->
+  (forall c w, Iv w -> Iv (set_fs w (append_file (w_fs w) (p ++ tmp_suffix) c))) ->
+  (forall w, Iv w -> Iv (drop_result (p ++ tmp_suffix) w)) ->
+  (forall w w', Iv w -> op_result (ORename (p ++ tmp_suffix) p) w = Some w' -> Iv w') ->
+  hoare Iv bad ptrue (write_file_atomically e p chunks) (fun _ => ptrue).
+Proof.
+  intros Hopen Happ Hdrop Hren s HI _. unfold write_file_atomically.
+  pose proof (hoare_do_op Iv bad ptrue e (OOpen (p ++ tmp_suffix)) (fun w w' H1 _ H2 => Hopen w w' H1 H2) s HI I) as H1.
+  destruct (do_op e (OOpen (p ++ tmp_suffix)) s) as [[u1| | | |] s1]; try exact H1.
+  destruct H1 as [HI1 _].
+  pose proof (hoare_cursor_writes Iv bad e (p ++ tmp_suffix) chunks Happ s1 HI1 I) as H2.
+  destruct (cursor_writes e (p ++ tmp_suffix) chunks s1) as [[u2| | | |] s2]; try exact H2.
+  - destruct H2 as [HI2 _].
+    pose proof (hoare_do_op Iv bad ptrue e (ORename (p ++ tmp_suffix) p) (fun w w' H1 _ H2 => Hren w w' H1 H2) s2 HI2 I) as H3.
+    destruct (do_op e (ORename (p ++ tmp_suffix) p) s2) as [[u3| | | |] s3]; try exact H3.
+    rewrite drop_tmp_eq. cbn. now apply Hdrop.
+  - rewrite drop_tmp_eq. cbn. now apply Hdrop.
+Qed.
+
+(* ------------------------------------------------------------------ state-independent postconditions *)
+Definition hs {A} (Iv : wpred) (bad : bool) (m : M A) (Q : A -> Prop) : Prop :=
+  hoare Iv bad ptrue m (fun a _ => Q a).
+
+Lemma hs_ret {A} (Iv : wpred) (bad : bool) (a : A) (Q : A -> Prop) : Q a -> hs Iv bad (ret a) Q.
+Proof. intros H. apply hoare_ret. auto. Qed.
+Lemma hs_fail {A} (Iv : wpred) (bad : bool) (Q : A -> Prop) : hs Iv bad (@fail A) Q.
+Proof. apply hoare_fail. Qed.
+Lemma hs_weaken {A} (Iv : wpred) (bad : bool) (m : M A) (Q Q' : A -> Prop) :
+  hs Iv bad m Q -> (forall a, Q a -> Q' a) -> hs Iv bad m Q'.
+Proof. intros H HQ. eapply hoare_conseq; [exact H|auto|]. cbn. auto. Qed.
+Lemma hs_bind {A B} (Iv : wpred) (bad : bool) (m : M A) (f : A -> M B) (Q : A -> Prop) (R : B -> Prop) :
+  hs Iv bad m Q -> (forall a, Q a -> hs Iv bad (f a) R) -> hs Iv bad (bind m f) R.
+Proof.
+  intros Hm Hf s HI HP. unfold bind. specialize (Hm s HI HP).
+  destruct (m s) as [[a| | | |] s']; auto.
+  destruct Hm as [HI' HQ]. exact (Hf a HQ s' HI' I).
+Qed.
+Lemma hs_seq {A B} (Iv : wpred) (bad : bool) (m : M A) (k : M B) (R : B -> Prop) :
+  hs Iv bad m (fun _ => True) -> hs Iv bad k R -> hs Iv bad (bind m (fun _ => k)) R.
+Proof. intros Hm Hk. eapply hs_bind; [exact Hm|]. intros _ _. exact Hk. Qed.
+Lemma hs_guard_k {B} (Iv : wpred) (bad : bool) (b : bool) (k : M B) (R : B -> Prop) :
+  (b = true -> hs Iv bad k R) -> hs Iv bad (bind (guard b) (fun _ => k)) R.
+Proof.
+  intros H. destruct b.
+  - intros s HI HP. exact (H eq_refl s HI HP).
+  - intros s HI HP. cbn. exact HI.
+Qed.
+Lemma hs_get_fs_k {B} (Iv : wpred) (bad : bool) (k : fsT -> M B) (R : B -> Prop) :
+  (forall f, hs Iv bad (k f) R) -> hs Iv bad (bind get_fs k) R.
+Proof. intros H s HI HP. exact (H _ s HI HP). Qed.
+Lemma hs_true {A} (Iv : wpred) (bad : bool) (m : M A) :
+  hoare Iv bad ptrue m (fun _ => ptrue) -> hs Iv bad m (fun _ => True).
+Proof. exact (fun H => H). Qed.
+Lemma hs_mapM_ {A} (Iv : wpred) (bad : bool) (f : A -> M unit) (l : list A) :
+  (forall x, In x l -> hs Iv bad (f x) (fun _ => True)) -> hs Iv bad (mapM_ f l) (fun _ => True).
+Proof. intros H. apply hoare_mapM_. exact H. Qed.
+Lemma hs_foldM {A} (Iv : wpred) (bad : bool) (J : ldefs -> Prop) (f : ldefs -> A -> M ldefs) (l : list A) :
+  (forall ld x, In x l -> J ld -> hs Iv bad (f ld x) J) ->
+  forall ld, J ld -> hs Iv bad (foldM f l ld) J.
+Proof. intros H ld HJ. apply (hoare_foldM Iv bad J f l); assumption. Qed.
+Lemma hs_panic_free {A} (Iv : wpred) (m : M A) (Q : A -> Prop) s :
+  hs Iv true m Q -> Iv (s_w s) ->
+  match fst (m s) with Diverged | Panicked => False | _ => True end.
+Proof. intros H HI. specialize (H s HI I). destruct (m s) as [[a| | | |] s']; cbn; auto. Qed.
